@@ -64,6 +64,10 @@ def regenerate(ctx, upper=None):
         ctx.undischarged.append("translator failed: " + out.strip()[-400:])
     for d in drift:
         ctx.undischarged.append("translator drift: pattern for `%s` no longer found in the source" % d)
+    # rewritten source: the item keeps its last generated value; the correspondence decides
+    ctx.stale = [l[6:] for l in out.splitlines() if l.startswith("STALE ")]
+    for d in ctx.stale:
+        ctx.assumptions.append("translator: the source text for `%s` was rewritten; its last generated value is used, and the lock-step correspondence (which exercises it) decides" % d)
     return drift
 
 
